@@ -16,9 +16,9 @@ mv tests/seeded_demo.rs /tmp/mut/${id}_demo.rs 2>/dev/null
 suite=$(cargo test --workspace --no-fail-fast --offline 2>&1 | grep -E "^test result" | awk '{p+=$4; f+=$6} END {print p" passed, "f" failed"}')
 cp /tmp/mut/${id}_demo.rs tests/seeded_demo.rs
 with=$(cargo test --offline --test seeded_demo 2>&1 | grep -E "^test result" | tail -1)
-git stash push -q -- src
+git apply -R $dst/patch.diff      # (git stash is shared by all worktrees of a repository: never use it here)
 without=$(cargo test --offline --test seeded_demo 2>&1 | grep -E "^test result" | tail -1)
-git stash pop -q
+git apply $dst/patch.diff
 echo "suite with change: $suite"; echo "demo with change: $with"; echo "demo without: $without"
 res=""
 for p in "$@"; do
